@@ -34,6 +34,8 @@ struct State {
     script: Option<Vec<u8>>,
     script_pos: usize,
     decisions: Vec<u8>,
+    /// candidates that were available at each decision (for systematic exploration)
+    choices: Vec<Vec<u8>>,
     free_running: bool,
     /// probability (out of 100) of switching away at a hook
     switch_pct: u64,
@@ -51,6 +53,8 @@ pub struct Outcome {
     pub trace: Vec<(u8, Site)>,
     /// scheduling decisions (task ids) — replay script
     pub decisions: Vec<u8>,
+    /// the runnable tasks at each decision, ascending; `decisions[i]` is one of `choices[i]`
+    pub choices: Vec<Vec<u8>>,
     pub free_running_fallback: bool,
     /// panic messages of task closures (task id, message)
     pub panics: Vec<(usize, String)>,
@@ -128,6 +132,7 @@ impl Baton {
                 script,
                 script_pos: 0,
                 decisions: Vec::new(),
+                choices: Vec::new(),
                 free_running: false,
                 switch_pct,
                 max_trace: 4096,
@@ -169,6 +174,7 @@ impl Baton {
             }
         };
         st.decisions.push(pick as u8);
+        st.choices.push(candidates.iter().map(|&c| c as u8).collect());
         Some(pick)
     }
 
@@ -261,6 +267,7 @@ impl Baton {
         Outcome {
             trace: st.trace.clone(),
             decisions: st.decisions.clone(),
+            choices: st.choices.clone(),
             free_running_fallback: st.free_running,
             panics: Vec::new(),
         }
@@ -276,7 +283,7 @@ pub fn run_scheduled(
     switch_pct: u64,
 ) -> Outcome {
     let n = tasks.len();
-    let baton = Baton::new(n, rng, script, switch_pct, Duration::from_millis(250));
+    let baton = Baton::new(n, rng, script, switch_pct, Duration::from_millis(1500));
     let mut handles = Vec::with_capacity(n);
     for (id, task) in tasks.into_iter().enumerate() {
         let b = Arc::clone(&baton);
